@@ -249,18 +249,26 @@ theorem flatten_replicate_nil {β : Type} (n : Nat) : (List.replicate n ([] : Li
   | succ n ih => simp [List.replicate_succ, ih]
 
 theorem balanceO_spec (p : Nat) (hp : 1 ≤ p) (qs : List Json) :
-    ∃ bins, balanceO W p qs = .ok (.ok bins) ∧ bins.flatten.Perm qs ∧ (qs ≠ [] → bins.length = p) ∧
-      (qs = [] → bins = []) := by
+    ∃ bins, balanceO W p qs = .ok (.ok bins) ∧ bins.flatten.Perm qs ∧
+      (qs ≠ [] → bins.length = min p qs.length) ∧ (qs = [] → bins = []) := by
   unfold balanceO
   by_cases he : qs.isEmpty = true
   · have : qs = [] := List.isEmpty_iff.mp he
     subst this
     exact ⟨[], by simp, by simp, by simp, by simp⟩
   · simp only [he]
-    have hne : List.replicate p ([] : List Json) ≠ [] := by
-      intro h; have := congrArg List.length h; simp at this; omega
-    obtain ⟨bins, h1, h2, h3⟩ := balanceLoopO_spec W qs (List.replicate p W.zero)
-      (List.replicate p []) (by simp) hne
+    have hlen : 0 < qs.length := by
+      cases qs with
+      | nil => simp at he
+      | cons _ _ => simp
+    have hn : 1 ≤ min p qs.length := by omega
+    have hne : List.replicate (min p qs.length) ([] : List Json) ≠ [] := by
+      intro h
+      have := congrArg List.length h
+      simp only [List.length_replicate, List.length_nil] at this
+      omega
+    obtain ⟨bins, h1, h2, h3⟩ := balanceLoopO_spec W qs (List.replicate (min p qs.length) W.zero)
+      (List.replicate (min p qs.length) []) (by simp) hne
     refine ⟨bins, by simpa using h1, ?_, fun _ => by simpa using h2, fun h => by simp [h] at he⟩
     simpa [flatten_replicate_nil] using h3
 
@@ -270,7 +278,7 @@ theorem balanceO_zero (qs : List Json) :
   unfold balanceO
   cases qs with
   | nil => rfl
-  | cons q r => rfl
+  | cons q r => simp [balanceLoopO, minBin]
 
 end balance
 
